@@ -4,7 +4,7 @@
    Path.branch, Path.extend_path, KeccakRegistry.copy, State.__deepcopy__) is regenerated
    from /repo/src/halmos/sevm.py on every run. *)
 From Coq Require Import String ZArith List Bool Lia.
-From HV Require Import Gen.GenCopies Gen.GenFrontierFlow Spec.IsolationSpec Model.IsolationModel Proofs.IsolationProofs.
+From HV Require Import Gen.GenCopies Gen.GenCallbackCopies Gen.GenFrontierFlow Spec.IsolationSpec Model.IsolationModel Proofs.IsolationProofs.
 Import ListNotations.
 Open Scope Z_scope.
 
@@ -106,11 +106,46 @@ Print Assumptions C20_test_config_in_shared_frontier_refuted.
 
 (* nothing derived from the running test's FunctionContext reaches get_frontier /
    _compute_frontier / run_target_contract / run_target_function, and the cache is read and
-   written under the depth alone (regenerated data-flow facts) *)
+   written under the depth alone; run_contract puts the post-setUp state into frontier_states[0]
+   and does not register it as visited (regenerated data-flow facts) *)
 Theorem C20_frontier_inputs_contract_level :
-  explore_cfg_src = SrcContract /\ frontier_test_inputs = [] /\ cache_key_depth_only = true.
+  explore_cfg_src = SrcContract /\ frontier_test_inputs = [] /\ cache_key_depth_only = true /\
+  setup_state_visited = false /\ test_cfg_base_src = SrcContract.
 Proof. exact frontier_flow_facts. Qed.
 Print Assumptions C20_frontier_inputs_contract_level.
+
+(* Function-level annotations.  A test is given by its annotation (a config transformer, with_devdoc),
+   and by its depth and body as functions of the config it ends up with; run_tests resolves it against
+   a base config and next_base (regenerated from run_tests) says which base the NEXT test starts from.
+   For every prefix of tests with arbitrary annotations, a completed test yields what it yields as the
+   only test of the run: annotations do not outlive their test. *)
+Theorem C20_order_annotations :
+  forall (cstep : Z -> Z -> list Z) (sd : Z -> Z) (cc s0 : Z) (pre : list atest) (t : atest),
+    Forall (fun u => a_budget u = None \/ a_depth u (a_ann u cc) = O) pre ->
+    a_budget t = None ->
+    nth (length pre) (run_contract_a next_base frontier_cfg cstep sd cc s0 (pre ++ [t])) []
+    = hd [] (run_contract_a next_base frontier_cfg cstep sd cc s0 [t]).
+Proof. exact order_annotated. Qed.
+Print Assumptions C20_order_annotations.
+
+(* ... namely the specification's result for the test's own annotation applied to the CONTRACT's config *)
+Theorem C20_alone_annotations :
+  forall (cstep : Z -> Z -> list Z) (sd : Z -> Z) (cc s0 : Z) (t : atest),
+    a_budget t = None ->
+    hd [] (run_contract_a next_base frontier_cfg cstep sd cc s0 [t])
+    = spec_paths (mkSystem (cstep cc) sd) (a_body t (a_ann t cc)) s0 (a_depth t (a_ann t cc)).
+Proof. exact alone_annotated. Qed.
+Print Assumptions C20_alone_annotations.
+
+(* necessary: if the next test started from the config of the test that has just run
+   (pick_cfg SrcTest), an un-annotated test FAILs (1) after an annotated one and PASSes (0) alone *)
+Theorem C20_stacked_annotations_refuted :
+  exists (cstep : Z -> Z -> list Z) (sd : Z -> Z) (cc s0 : Z) (t1 t2 : atest),
+    a_budget t1 = None /\ a_budget t2 = None /\
+    verdict_of (nth 1 (run_contract_a (pick_cfg SrcTest) frontier_cfg cstep sd cc s0 [t1; t2]) []) = 1 /\
+    verdict_of (hd [] (run_contract_a (pick_cfg SrcTest) frontier_cfg cstep sd cc s0 [t2])) = 0.
+Proof. exact stacked_annotations_refute_isolation. Qed.
+Print Assumptions C20_stacked_annotations_refuted.
 
 Example C20_nonvacuous_config :
   let cstep := fun e s => map (fun k => s + Z.of_nat k) (seq 1 (Z.to_nat e)) in
@@ -206,6 +241,21 @@ Example C20_nonvacuous_store :
 Proof. exact store_example. Qed.
 
 (* ---------------------------------------------------------------- copy tables (regenerated) *)
+
+(* The continuations of a caller after a sub-call: the return callback installed by SEVM.call
+   (call_known) / SEVM.create is run once per outcome of the callee and builds every continuation from
+   the same caller state and the same backups (Gen/GenCallbackCopies.v, regenerated from sevm.py).
+   Every field it re-establishes -- on every outcome (resume), on a failing outcome (restore), and the
+   backups themselves -- is copied at least as deep as the interpreter mutates it in place, so
+   C20_siblings / C20_siblings_converse (which hold for ANY table) apply to these derivations too. *)
+Theorem C20_callback_tables_sufficient :
+  fields_ok exec_need call_backup_table = true /\ fields_ok exec_need call_resume_table = true /\
+  fields_ok exec_need call_restore_table = true /\
+  fields_ok exec_need create_backup_table = true /\ fields_ok exec_need create_resume_table = true /\
+  fields_ok exec_need create_restore_table = true.
+Proof. exact callback_tables_sufficient. Qed.
+Print Assumptions C20_callback_tables_sufficient.
+
 
 (* every field of Exec / Path is copied at least as deep as it is mutated in place, in all four
    places where a state is derived from another one *)
